@@ -130,7 +130,8 @@ func (g *FastGoBackend) GenerateOne(ast *parser.Thrift) (*plugin.Generated, erro
 
 	// Headers:
 	// thriftgo version and package name
-	packageName := path.Base(golang.GetImportPath(g.utils, ast))
+	selfImportPath := golang.GetImportPath(g.utils, ast)
+	packageName := path.Base(selfImportPath)
 	fmt.Fprintf(c, "%s\npackage %s\n\n", fixedFileHeader, packageName)
 
 	// Imports
@@ -138,6 +139,9 @@ func (g *FastGoBackend) GenerateOne(ast *parser.Thrift) (*plugin.Generated, erro
 	for _, incl := range scope.Includes() {
 		if incl == nil { // TODO(liyun.339): fix this
 			continue
+		}
+		if incl.ImportPath == selfImportPath {
+			continue // an include with the same go namespace is this very package
 		}
 		unusedProtect = true
 		w.UsePkg(incl.ImportPath, incl.PackageName)
@@ -153,7 +157,7 @@ func (g *FastGoBackend) GenerateOne(ast *parser.Thrift) (*plugin.Generated, erro
 	if unusedProtect {
 		fmt.Fprintln(c, "var (")
 		for _, incl := range scope.Includes() {
-			if incl == nil { // TODO(liyun.339): fix this
+			if incl == nil || incl.ImportPath == selfImportPath { // TODO(liyun.339): fix this
 				continue
 			}
 			fmt.Fprintf(c, "_ = %s.ThriftGoUnusedProtection\n", incl.PackageName)
